@@ -17,6 +17,7 @@ import (
 	"crypto/sha1"
 	"encoding/hex"
 	"encoding/json"
+	"errors"
 	"fmt"
 	"io"
 	"math/rand"
@@ -29,6 +30,7 @@ import (
 	"strings"
 	"sync"
 	"sync/atomic"
+	"syscall"
 	"time"
 
 	"github.com/inbucket/inbucket/v3/pkg/config"
@@ -59,6 +61,9 @@ type c09Spec struct {
 	To    int    `json:"to"`
 	DurMs int    `json:"dur_ms"`
 	Work  string `json:"work"`
+	// Scarce > 0 (lin legs "file-scarce…", c09_scarce.go): while the goroutines of a history run, the process has only this many free file
+	// descriptors and other clients (connections that come and go) keep taking and releasing them
+	Scarce int `json:"scarce,omitempty"`
 }
 
 func (sp c09Spec) json() string {
@@ -471,6 +476,7 @@ type c09Rec struct {
 	res       string     // n o f0 f1
 	list      []c09Entry // l: the listing; t: the one message
 	bad       bool       // not a history entry (an oracle failed in it)
+	dropped   bool       // scarce legs: the operation FAILED for want of a file descriptor (EMFILE); it is no entry of the history either
 }
 
 type c09Hist struct {
@@ -534,6 +540,12 @@ func (h *c09Hist) exec(g int, op c09PlanOp) (rec c09Rec) {
 	}()
 	other := func(err error) {
 		rec.bad = true
+		if h.sp.Scarce > 0 && g >= 0 && errors.Is(err, syscall.EMFILE) {
+			// the operation could not get a descriptor and said so: a failed operation is not part of the history (what it may have done before
+			// it failed — an eviction, the index of a last message unlinked — has announced itself by deleted events and enters as optional ops)
+			rec.dropped = true
+			return
+		}
 		h.taint("op-error", fmt.Sprintf("operation %c on %q returned an error that is neither nil nor ErrNotExist: %v", op.kind, box, err))
 	}
 	switch op.kind {
@@ -689,6 +701,16 @@ func c09ChildLin(sp c09Spec) {
 				break
 			}
 		}
+		if sp.Scarce > 0 {
+			// every history that loses mail waits its two seconds for deleted events that never come: a handful of failing inputs is enough
+			n := 0
+			for _, v := range c09FailStats() {
+				n += v
+			}
+			if n >= 12 {
+				break
+			}
+		}
 	}
 	slot.done()
 	st.Fails = c09FailStats()
@@ -719,6 +741,14 @@ func c09RunHistory(sp c09Spec, idx, try int, slot *c09Slot, stats *c09LinStats) 
 	recs := make([][]c09Rec, G)
 	var ready atomic.Int32
 	var wg sync.WaitGroup
+	plenty := func() {}
+	if sp.Scarce > 0 {
+		var serr error
+		if plenty, serr = c09Scarcity(sp, rand.New(rand.NewSource(seed+int64(try)))); serr != nil {
+			c09Fail("store-construction", "the descriptor limit cannot be set: "+serr.Error(), ident)
+			return 1
+		}
+	}
 	for g := 0; g < G; g++ {
 		wg.Add(1)
 		go func(g int) {
@@ -740,6 +770,7 @@ func c09RunHistory(sp c09Spec, idx, try int, slot *c09Slot, stats *c09LinStats) 
 		}(g)
 	}
 	wg.Wait()
+	plenty() // descriptors are plentiful again: what follows is the harness looking at the result
 	slot.beat()
 	// quiescence: one listing per mailbox, sequential
 	var all []c09Rec
@@ -813,7 +844,7 @@ func c09RunHistory(sp c09Spec, idx, try int, slot *c09Slot, stats *c09LinStats) 
 		nops++
 	}
 	bg := 0
-	if sp.MaxKB > 0 {
+	if sp.MaxKB > 0 || sp.Scarce > 0 {
 		keys := make([]string, 0, len(evN))
 		for k := range evN {
 			keys = append(keys, k)
@@ -856,6 +887,11 @@ func c09RunHistory(sp c09Spec, idx, try int, slot *c09Slot, stats *c09LinStats) 
 		}
 	}
 	for k, n := range evN {
+		if sp.Scarce > 0 {
+			// a removal that fails at its index write has announced the message already and leaves it listed (C16, theorem
+			// refused_index_write_in_remove_announces_twice: what the code as it is does; not C09's matter)
+			break
+		}
 		if n > 1 {
 			fail("deleted-event-once", fmt.Sprintf("%d deleted events for %s", n, k))
 		}
@@ -915,6 +951,18 @@ func c09RunHistory(sp c09Spec, idx, try int, slot *c09Slot, stats *c09LinStats) 
 	overlap := ovp > 0
 	stats.Histories++
 	stats.Ops += nops
+	if sp.Scarce > 0 {
+		if stats.Extra == nil {
+			stats.Extra = map[string]int{}
+		}
+		for _, rc := range all {
+			if rc.dropped {
+				stats.Extra["ops-failed-for-want-of-a-descriptor"]++
+				stats.Extra["failed:"+string(rc.kind)]++
+			}
+		}
+		stats.Extra["ops-completed-under-scarcity"] += nops - len(plan.names)
+	}
 	if len(h.tainted) > 0 {
 		stats.Tainted++
 		c09Out("X %s tainted", ident)
